@@ -68,7 +68,7 @@ impl<T: std::cmp::PartialEq + std::fmt::Display + std::fmt::Debug> Element<T> {
 
     /// increase the counter by one, only used during parsing an XML document
     pub fn increment(&mut self) {
-        self.count += 1;
+        self.count = self.count.saturating_add(1);
     }
 
     /// merge the given list of attributes into the list if the element's attributes
